@@ -459,7 +459,7 @@ func TestC13(t *testing.T) {
 	delays := []int{0, 0, 1, 5, 20, 50}
 	lab.Prop[c13Case]{
 		ID: "C13", Part: "starttls",
-		Rule: "rapid: 1..16 parallel sessions through a recording wiretap proxy; the StartTLS handler sleeps d1, writes success, sleeps d2 (0..50 ms, occasionally up to 600 ms; the client's ClientHello is already on the wire), calls Request.StartTLS, sleeps d3; the session may then stay idle for 0.3..2.5 s; then 1..40 generated requests of all operations (controls, binary values) inside the tunnel, sequentially or pipelined in one write; the server's logger is at Error or Debug level; handlers of the plaintext requests before the StartTLS may linger after answering; conforming clients = raw independent client and go-ldap StartTLS; one raw session in five also pipelines a complete plaintext request behind its StartTLS request in the same write (it must never be dispatched or answered, neither before nor inside the tunnel); oracle = handshake succeeds for every timing, every tunnel request is decoded (field-by-field as C01), numbered in continuation of the connection's Request.IDs and answered once, pipelined sessions end with a rendezvous (two extended requests in one write: the first of the two handlers waits for the second to be entered: dispatch inside the tunnel is concurrent), and every captured byte after the StartTLS exchange is a TLS record in both directions; non-trivial = d2 > 0 and >= 2 concurrent requests after the upgrade; distinct by hash of the session",
+		Rule: "rapid: 1..16 parallel sessions through a recording wiretap proxy; the StartTLS handler sleeps d1, writes success, sleeps d2 (0..50 ms, occasionally up to 600 ms, one session in 40 with 2..5.5 s before or after the reply; the client's ClientHello is already on the wire), calls Request.StartTLS, sleeps d3; the session may then stay idle for 0.3..2.5 s; then 1..40 generated requests of all operations (controls, binary values) inside the tunnel, sequentially or pipelined in one write; the server's logger is at Error or Debug level; handlers of the plaintext requests before the StartTLS may linger after answering; conforming clients = raw independent client and go-ldap StartTLS; one raw session in five also pipelines a complete plaintext request behind its StartTLS request in the same write (it must never be dispatched or answered, neither before nor inside the tunnel); oracle = handshake succeeds for every timing, every tunnel request is decoded (field-by-field as C01), numbered in continuation of the connection's Request.IDs and answered once, pipelined sessions end with a rendezvous (two extended requests in one write: the first of the two handlers waits for the second to be entered: dispatch inside the tunnel is concurrent), and every captured byte after the StartTLS exchange is a TLS record in both directions; non-trivial = d2 > 0 and >= 2 concurrent requests after the upgrade; distinct by hash of the session",
 		Gen: func(t *rapid.T) c13Case {
 			var c c13Case
 			c.Debug = rapid.IntRange(0, 3).Draw(t, "debuglog") == 0
@@ -481,6 +481,12 @@ func TestC13(t *testing.T) {
 					GoLDAP:     i == 0 && rapid.IntRange(0, 3).Draw(t, "goldap") == 0,
 					Pre:        rapid.IntRange(0, 2).Draw(t, "pre"),
 					Inject:     rapid.IntRange(0, 4).Draw(t, "inject") == 0,
+				}
+				// a handler that takes seconds (a slow backend, a policy lookup) before or after its reply: still "whatever
+				// the handler's timing" - beyond any plausible fixed budget for the negotiation (one session in 40)
+				if rapid.IntRange(0, 39).Draw(t, "veryslow") == 0 {
+					v := rapid.SampledFrom([][2]int{{5500, 0}, {0, 5500}, {3000, 3000}, {0, 2100}}).Draw(t, "veryslowms")
+					s.D1, s.D2 = v[0], v[1]
 				}
 				if rapid.IntRange(0, 9).Draw(t, "pause") == 0 {
 					s.PauseMs = rapid.SampledFrom([]int{300, 1200, 2500}).Draw(t, "pausems")
